@@ -142,3 +142,19 @@ P("C12",
   units=[
    U("c12.mse", "c12", "TestMSE", "handshake agreement + byte-exact duplex stream for all pads/chunkings/keys/offers", Q(3000, 6), T(400000), min_nontrivial_frac=0.4, shrinktime="10s"),
   ])
+
+P("C18",
+  level_text="Bounded random exploration: (a) rule lists of valid CIDRs (/0../32, overlapping, nested, adjacent, duplicated) mixed with comments, blanks, IPv6 and "
+             "malformed lines, over several reloads, queried at range endpoints +-1 and compared with a linear scan by an independent parser model (validity is known "
+             "by construction, never guessed); a failed reload must leave the previous list in force. (b) push/pop/reset histories on the candidate-address queue compared with "
+             "a model: documented filters (port 0, own loopback address, own IP, blocked IP), cap, per-source counts, pops in non-increasing BEP 40 priority (independent "
+             "implementation checked against the BEP's vectors), evictions oldest batch first.",
+  level_note="Trusted: the harness model and its BEP 40 implementation. Which member of a partially evicted batch survives is left free (not specified); a priority "
+             "collision with such a batch makes the model count ambiguous and the case is counted inconclusive. The 'never dials ...' clauses over a live session are decided by the session unit when listed.",
+  technique="property-based testing (rapid): reference model (linear scan) and model-based stateful testing of the address queue",
+  rule="(a) 1..3 reloads x 0..25 lines x 1..12 queries; non-trivial = list in force has >=2 rules. (b) 1..25 ops, cap 1..10; non-trivial = history exercises a filter, an eviction or a priority collision",
+  assumptions=["the sandbox has no public interface address, so the 'own external interface address' filter is inert"],
+  units=[
+   U("c18.blocklist", "c18", "TestBlocklist", "Blocked(ip) == linear scan over the list in force after every reload", Q(30000, 4), T(4000000), min_nontrivial_frac=0.3),
+   U("c18.addrlist", "c18", "TestAddrList", "addrlist push/pop/reset vs bounded-priority-set model", Q(20000, 4), T(2000000), min_nontrivial_frac=0.3),
+  ])
